@@ -383,8 +383,16 @@ def run_interp(ctx, p):
         A = [np.asarray(a, dtype=np.float64) * (1.0 if np.asarray(a)[0] >= 0 else -1.0) for a in A]
     try:
         X = mk(c, A)
-        res = X.interp(np.array(svec))
-        singles = [X.interp(float(s)) for s in svec]
+        if p.get('start') is not None and c != 'UnitQuaternion':
+            # the two-pose form: the same start for the vector call and for the per-s calls (poses a long way apart included:
+            # both forms must take the same arc)
+            S0 = mk(c, [np.asarray(p['start'], dtype=np.float64)])
+            sig['start'] = True
+            res = X.interp(np.array(svec), start=S0)
+            singles = [X.interp(float(s), start=S0) for s in svec]
+        else:
+            res = X.interp(np.array(svec))
+            singles = [X.interp(float(s)) for s in svec]
     except Exception as e:
         ctx.bad('accessor', dict(sig, kind='raised_on_sequence', exc=type(e).__name__), '%s.interp(vector s) raised %r' % (c, e))
         return
@@ -514,11 +522,23 @@ def run(ctx):
                         drive(RUNNERS, ctx, 'binop', dict(cls=c, op=op, A=A, B=[a_.copy() for a_ in A], sameobj=True))
                     if i % 211 == 0:
                         ctx.sample(dict(case='binop', cls=c, op=op, m=m, n=n), limit=8)
-        for m in range(1, 6):
+            # objects holding many values (a batch path, a chunk size, a preallocated buffer would show here), with repeated
+            # values among them (drawn from a pool of three: coincidences of equal elements)
+            for m, n in ((16, 16), (17, 1), (1, 33), (64, 64), (16, 17), (8, 8), (100, 1)):
+                i += 1
+                if not ctx.mine(i):
+                    continue
+                pool_ = elements(rng, c, 3)
+                A = [pool_[int(k_)].copy() for k_ in rng.integers(3, size=m)]
+                B = [pool_[int(k_)].copy() for k_ in rng.integers(3, size=n)]
+                if rng.random() < 0.5:
+                    A = [element(rng, c) for _ in range(m)]
+                drive(RUNNERS, ctx, 'binop', dict(cls=c, op=op, A=A, B=B))
+        for m in list(range(1, 6)) + [16, 64]:
             i += 1
             if not ctx.mine(i):
                 continue
-            for _ in range(reps):
+            for _ in range(reps if m < 16 else 1):
                 if c not in ('Twist2', 'Twist3'):
                     drive(RUNNERS, ctx, 'pow', dict(cls=c, A=elements(rng, c, m), n=int(rng.integers(-4, 5))))
                 if c in POSES + ['UnitQuaternion']:
@@ -554,20 +574,33 @@ def run(ctx):
         if fn is None:
             continue
         for c in classes:
-            for m in range(1, 6):
+            for m in list(range(1, 6)) + [16, 65]:
                 i += 1
                 if not ctx.mine(i):
                     continue
-                for _ in range(reps):
-                    drive(RUNNERS, ctx, 'acc', dict(cls=c, acc=name, A=elements(rng, c, m)))
+                for _ in range(reps if m < 16 else 1):
+                    drive(RUNNERS, ctx, 'acc', dict(cls=c, acc=name, A=elements(rng, c, m) if m < 16 else [element(rng, c) for _ in range(m)]))
     for c in POSES + ['UnitQuaternion']:
-        for k in range(2, 6):
+        for k in list(range(2, 6)) + [100, 257]:
             i += 1
             if not ctx.mine(i):
                 continue
-            for _ in range(reps):
+            for _ in range(reps if k < 100 else 1):
                 s = sorted(float(x) for x in rng.random(k))
                 if rng.random() < 0.5:
                     s[0], s[-1] = 0.0, 1.0
+                if rng.random() < 0.25:         # coincidences: a constant vector, repeated values, an unsorted vector
+                    s = [s[0]] * k if rng.random() < 0.4 else [s[int(j_)] for j_ in rng.integers(k, size=k)]
                 drive(RUNNERS, ctx, 'interp', dict(cls=c, A=elements(rng, c, 1), s=s))
+                if c != 'UnitQuaternion':
+                    e1 = elements(rng, c, 1)
+                    if c in ('SO3', 'SE3') and rng.random() < 0.5:
+                        # start and end a long way apart about one axis (their quaternions in opposite hemispheres, not antipodal)
+                        a_ = gen.unit_axis(rng)
+                        th_ = rng.uniform(1.7, 2.9)
+                        R0_, R1_ = ref.rot(a_, -th_), ref.rot(a_, th_)
+                        st, e1 = (R0_, [R1_]) if c == 'SO3' else (ref.rt2tr(R0_, gen.transl(rng, hi=1e3)), [ref.rt2tr(R1_, gen.transl(rng, hi=1e3))])
+                    else:
+                        st = element(rng, c)
+                    drive(RUNNERS, ctx, 'interp', dict(cls=c, A=e1, s=s, start=st))
     ctx.extra['configurations_enumerated'] = i
